@@ -608,6 +608,11 @@ class EscapeAnalysis:
         if isinstance(test, ast.UnaryOp) and isinstance(test.op, ast.Not):
             d = self._decide(test.operand)
             return None if d is None else not d
+        if isinstance(test, ast.BoolOp):
+            ds = [self._decide(v) for v in test.values]
+            if isinstance(test.op, ast.And):
+                return False if any(d is False for d in ds) else True if all(d is True for d in ds) else None
+            return True if any(d is True for d in ds) else False if all(d is False for d in ds) else None
         if isinstance(test, ast.Compare) and len(test.ops) == 1 and isinstance(test.left, ast.Name) and test.left.id in self._env and \
                 isinstance(test.comparators[0], ast.Constant) and isinstance(test.ops[0], (ast.Is, ast.IsNot, ast.Eq, ast.NotEq)):
             same = self._env[test.left.id] is test.comparators[0].value or self._env[test.left.id] == test.comparators[0].value
